@@ -30,6 +30,11 @@ CHECKS = {
     text="TLC explores every interleaving of 3 files x 2 walker threads x channel capacity 1 for every assignment of parse results (none/ok/item-errors/Err/panic) and checks termination (under weak fairness), no-panic exit, exit-code/diagnostic consistency and 'a clean tree succeeds'. A reachability query yields the schedule 'a result is sent after the collector has gone'; it is projected to gate points and forced on the real binary (this is how the SendError panic, fixed in e0dfe05, was reproduced), and the run's own event log is validated against the model. 38 edge constructs x 6 languages x single/multi-file (x 4 companion-file sets in thorough) run on the real binary under a 10 s watchdog; outcome must be exit 0 with output or exit != 0 with a diagnostic naming the file. A corpus of random supported programs (all item kinds, recursion, generics, renames, overrides; 300 quick / 3000 thorough x 6 languages) runs through the library under catch_unwind with abort isolation.",
     note="Trusted: TLC; the hooks' event placement (binding demonstrated by rejecting corrupted/dropped events); a run alive after 10 s is a hang. Model-level finding kept in evidence: a panic inside a walker thread would hang the process (needs an input that panics; none is known after fixes 47370c3, cdfed7c, 284909f, 436a798). Known findings: const in Kotlin/Swift (todo!()), empty tree in single-file mode, generation-time errors do not name the file.",
     design_ref="6/C07"),
+ "C06": dict(
+    technique="TLA+ model of the fold-in-arrival-order / stable-sort data path (DataPath.tla inside Pipeline.tla) model-checked for determinism over all schedules; every arrival permutation of TLC-enumerated source trees forced on the real binary through the arrival-order hook; free runs over thread counts, fresh processes and file re-splits; all runs judged by TLC as trace events (Trace_C06.tla)",
+    text="TLC checks on Pipeline.tla that for every interleaving of 3 files x 2 workers the emitted item sequence equals the one of a canonical arrival order (holds for structs/enums/aliases/consts with distinct names; violated for same-name-same-kind items, which is the known finding). MC_C06 enumerates every tree of 3 (quick) / 4 (thorough, plus 6-file trees with all 720 orders) files over seven file templates together with every arrival permutation and the model's prediction; each permutation is forced on the real binary with TYPESHARE_VERIF_ORDER in single- and multi-file mode, languages rotated. Free runs vary the walker thread count 1..16, repeat fresh processes on a tree that hits the import-fallback hash-iteration site, and re-split the same items over files (one file, one file per item, by kind, reversed). Every run is one event (class, sha256 of all output bytes); Trace_C06 requires all events of a class to agree.",
+    note="Trusted: TLC; sha256 of output files; the arrival-order hook buffers all results before folding (keyed by a marker struct at the top of each file). Hash seeds are sampled (12 / 40 processes), not enumerated. Known finding: same-name-same-kind duplicates follow arrival order. Fixed: 1d75015 (consts unsorted), 6f56816 (HashMap iteration in import fallback).",
+    design_ref="6/C06"),
 }
 
 NOT_YET = "not built yet in this round (planned: see DESIGN.md section 6); no check is registered, nothing is claimed"
@@ -66,7 +71,7 @@ def main():
              "kind_free_text": "explicit TLA+ specifications (spec/*.tla) checked with TLC; TLC-enumerated cases replayed into the real typeshare code (harness/driver, hooked CLI) and recorded executions validated against the specifications by TLC"},
         ],
         "checks": checks,
-        "notes": "Fix commits in /repo: d7ce7e9 (C16), 1dc1d80 (C11), 47370c3 cdfed7c 284909f 436a798 e0dfe05 (C07). Known findings: /verif/known_findings.jsonl. DESIGN.md describes layers P (judge), M (implementation models, predictions only) and B (binding).",
+        "notes": "Fix commits in /repo: d7ce7e9 (C16), 1dc1d80 (C11), 47370c3 cdfed7c 284909f 436a798 e0dfe05 (C07), 1d75015 6f56816 (C06). Known findings: /verif/known_findings.jsonl. DESIGN.md describes layers P (judge), M (implementation models, predictions only) and B (binding).",
         "not_applicable": [{"property_id": p, "reason": NA.get(p, NOT_YET)} for p in ALL if p not in CHECKS],
     }
     json.dump(m, open(os.path.join(ROOT, "MANIFEST.json"), "w"), indent=1)
